@@ -911,3 +911,202 @@ Proof.
   { intros c0 E; injection E as _ <-. rewrite Hpre. fold sz. rewrite !lenN_app. repeat split; lia. }
   destruct (dec_eip8 _ _); [destruct (body_ok _)|]; apply Hall.
 Qed.
+
+(* ------------------------------------------------------------------ *)
+(* discovery: the typed codec round-trips, hence whole packets do     *)
+(* ------------------------------------------------------------------ *)
+Definition wf_endpoint (e : endpoint) : Prop :=
+  lenN (ep_ip e) < two32 /\ ep_udp e < 65536 /\ ep_tcp e < 65536.
+Definition wf_node (n : rpc_node) : Prop :=
+  lenN (nd_ip n) < two32 /\ nd_udp n < 65536 /\ nd_tcp n < 65536 /\ lenN (nd_id n) = 64.
+(* a forward-compatibility element: a non-empty value that Stream.Raw reads back as itself *)
+Definition raw_ok (r : bytes) : Prop := r <> [] /\ forall x, s_raw (r ++ x) = Some (r, x).
+Definition wf_msg (m : dmsg) : Prop :=
+  match m with
+  | Ping v f t e r => v < two64 /\ wf_endpoint f /\ wf_endpoint t /\ e < two64 /\ Forall raw_ok r
+  | Pong t tok e r => wf_endpoint t /\ lenN tok < two32 /\ e < two64 /\ Forall raw_ok r
+  | Findnode tg e r => lenN tg = 64 /\ e < two64 /\ Forall raw_ok r
+  | Neighbors ns e r => Forall wf_node ns /\ e < two64 /\ Forall raw_ok r
+  end /\ lenN (msg_payload m) < two64.
+
+Lemma s_uint_enc bits n r : bits = 16 \/ bits = 64 -> n < 2 ^ bits ->
+  s_uint bits (encode_uint n ++ r) = Some (n, r).
+Proof.
+  intros Hb Hn. unfold s_uint, encode_uint. rewrite encode_Str.
+  assert (Hlen : lenN (be_of_N n) * 8 <= bits).
+  { destruct Hb as [-> | ->].
+    - assert (lenN (be_of_N n) <= 2) by (apply be_of_N_len_le; change (256 ^ 2) with (2 ^ 16); exact Hn). lia.
+    - assert (lenN (be_of_N n) <= 8) by (apply be_of_N_len_le; change (256 ^ 8) with (2 ^ 64); exact Hn). lia. }
+  rewrite split_enc by (unfold two64; destruct Hb as [-> | ->]; lia).
+  cbn [item_to_uint]. rewrite be_of_N_no_lead0, N_of_be_of_N. cbn [andb].
+  destruct (N.leb_spec (lenN (be_of_N n) * 8) bits); [|lia]. now rewrite orb_true_r.
+Qed.
+
+Lemma s_bytes_enc s r : lenN s < two64 -> s_bytes (enc_str s ++ r) = Some (s, r).
+Proof. intros Hs. unfold s_bytes, enc_str. now rewrite split_enc. Qed.
+
+Lemma s_arr_enc n s r : lenN s = n -> n < two64 -> s_arr n (enc_str s ++ r) = Some (s, r).
+Proof.
+  intros Hs Hn. unfold s_arr, enc_str. rewrite split_enc by lia.
+  destruct (N.eqb_spec (lenN s) n); [reflexivity|contradiction].
+Qed.
+
+Lemma s_list_enc pl r : lenN pl < two64 -> s_list (enc_list pl ++ r) = Some (pl, r).
+Proof. intros Hs. unfold s_list, enc_list. now rewrite split_enc. Qed.
+
+Lemma enc_len k c : lenN c < two64 -> lenN (enc k c) <= lenN c + 9.
+Proof.
+  intros Hc. assert (Hh : forall off, lenN (enc_hdr off (lenN c)) <= 9).
+  { intros off. unfold enc_hdr. destruct (N.ltb_spec (lenN c) 56) as [|H56]; [cbn; lia|].
+    destruct (be_len_bounds (lenN c) H56 Hc). rewrite lenN_cons. lia. }
+  destruct k; unfold enc.
+  - destruct (is_single_low c); [lia|]. rewrite lenN_app. specialize (Hh 128). lia.
+  - rewrite lenN_app. specialize (Hh 192). lia.
+Qed.
+
+Lemma uint_len n : n < two64 -> lenN (encode_uint n) <= 9.
+Proof. intros Hn. apply encode_uint_len in Hn. lia. Qed.
+
+Lemma lt16_lt64 n : n < 65536 -> n < two64.
+Proof. unfold two64. lia. Qed.
+
+Lemma s_endpoint_enc e r : wf_endpoint e -> s_endpoint (enc_endpoint e ++ r) = Some (e, r).
+Proof.
+  intros (Hip & Hu & Ht). unfold s_endpoint, enc_endpoint.
+  pose proof (enc_len KStr (ep_ip e) ltac:(unfold two32, two64 in *; lia)) as L1.
+  pose proof (uint_len _ (lt16_lt64 _ Hu)) as L2. pose proof (uint_len _ (lt16_lt64 _ Ht)) as L3.
+  rewrite s_list_enc by (rewrite !lenN_app; unfold enc_str, two32, two64 in *; lia).
+  rewrite s_bytes_enc by (unfold two32, two64 in *; lia).
+  rewrite s_uint_enc by (auto; exact Hu).
+  rewrite <- (app_nil_r (encode_uint (ep_tcp e))).
+  rewrite s_uint_enc by (auto; exact Ht).
+  destruct e; reflexivity.
+Qed.
+
+Lemma s_node_enc n r : wf_node n -> s_node (enc_node n ++ r) = Some (n, r).
+Proof.
+  intros (Hip & Hu & Ht & Hid). unfold s_node, enc_node.
+  pose proof (enc_len KStr (nd_ip n) ltac:(unfold two32, two64 in *; lia)) as L1.
+  pose proof (uint_len _ (lt16_lt64 _ Hu)) as L2. pose proof (uint_len _ (lt16_lt64 _ Ht)) as L3.
+  pose proof (enc_len KStr (nd_id n) ltac:(unfold two64; lia)) as L4.
+  rewrite s_list_enc by (rewrite !lenN_app; unfold enc_str, two32, two64 in *; lia).
+  rewrite s_bytes_enc by (unfold two32, two64 in *; lia).
+  rewrite s_uint_enc by (auto; exact Hu).
+  rewrite s_uint_enc by (auto; exact Ht).
+  rewrite <- (app_nil_r (enc_str (nd_id n))).
+  rewrite s_arr_enc by (try exact Hid; unfold two64; lia).
+  destruct n; reflexivity.
+Qed.
+
+Lemma s_raws_enc : forall rest fuel, Forall raw_ok rest -> (length (concat rest) <= fuel)%nat ->
+  s_raws fuel (concat rest) = Some rest.
+Proof.
+  induction rest as [|r rest IH]; intros fuel Hall Hf.
+  - destruct fuel; reflexivity.
+  - inversion Hall as [|? ? [Hne Hr] Hrest]; subst. cbn [concat] in *.
+    destruct r as [|h t]; [contradiction|].
+    destruct fuel as [|f]; [rewrite app_length in Hf; cbn [length] in Hf; lia|].
+    cbn [app s_raws].
+    change (h :: t ++ concat rest) with ((h :: t) ++ concat rest). rewrite Hr.
+    rewrite IH; [reflexivity|assumption|].
+    rewrite app_length in Hf. cbn [length] in Hf. lia.
+Qed.
+
+Lemma enc_list_nonempty pl : exists h t, enc_list pl = h :: t.
+Proof. apply enc_nonempty. Qed.
+
+Lemma s_nodes_enc : forall ns fuel, Forall wf_node ns -> (length (flat_map enc_node ns) <= fuel)%nat ->
+  s_nodes fuel (flat_map enc_node ns) = Some ns.
+Proof.
+  induction ns as [|n ns IH]; intros fuel Hall Hf.
+  - destruct fuel; reflexivity.
+  - inversion Hall as [|? ? Hn Hrest]; subst. cbn [flat_map] in *.
+    destruct (enc_list_nonempty (enc_str (nd_ip n) ++ encode_uint (nd_udp n) ++ encode_uint (nd_tcp n) ++ enc_str (nd_id n)))
+      as (h & t & Eh).
+    assert (Elen : (1 <= length (enc_node n))%nat) by (unfold enc_node; rewrite Eh; cbn [length]; lia).
+    destruct fuel as [|f]; [rewrite app_length in Hf; lia|].
+    pose proof (s_node_enc n (flat_map enc_node ns) Hn) as Hs.
+    unfold enc_node in *. rewrite Eh in *. cbn [app s_nodes] in *. rewrite Hs.
+    rewrite IH; [reflexivity|assumption|].
+    cbn [length] in Hf. rewrite app_length in Hf. lia.
+Qed.
+
+(* the typed decoder inverts the typed encoder on every well-formed request *)
+Theorem dec_msg_encode m r : wf_msg m -> dec_msg (msg_type m) (encode_msg m ++ r) = Some m.
+Proof.
+  intros [Hwf Hlen]. unfold dec_msg, encode_msg. rewrite s_list_enc by exact Hlen.
+  destruct m as [v f t e rest|t tok e rest|tg e rest|ns e rest]; cbn [msg_type msg_payload N.eqb Pos.eqb] in *.
+  - destruct Hwf as (Hv & Hf & Ht & He & Hr).
+    rewrite s_uint_enc by (auto; exact Hv). rewrite !s_endpoint_enc by assumption.
+    rewrite s_uint_enc by (auto; exact He). rewrite s_raws_enc by auto. reflexivity.
+  - destruct Hwf as (Ht & Htok & He & Hr).
+    rewrite s_endpoint_enc by assumption.
+    rewrite s_bytes_enc by (unfold two32, two64 in *; lia).
+    rewrite s_uint_enc by (auto; exact He). rewrite s_raws_enc by auto. reflexivity.
+  - destruct Hwf as (Htg & He & Hr).
+    rewrite s_arr_enc by (try exact Htg; unfold two64; lia).
+    rewrite s_uint_enc by (auto; exact He). rewrite s_raws_enc by auto. reflexivity.
+  - destruct Hwf as (Hns & He & Hr).
+    assert (Hnl : lenN (flat_map enc_node ns) < two64).
+    { rewrite !lenN_app in Hlen. pose proof (enc_KLst_length (flat_map enc_node ns)) as Hk.
+      unfold enc_list, lenN in *. lia. }
+    rewrite s_list_enc by exact Hnl. rewrite s_nodes_enc by auto.
+    rewrite s_uint_enc by (auto; exact He). rewrite s_raws_enc by auto. reflexivity.
+Qed.
+
+Section PacketRoundtrip.
+  Variable H : bytes -> bytes.
+  Variable recover : bytes -> bytes -> option bytes.
+  Variable sign : bytes -> bytes -> bytes.
+  Hypothesis H_len : forall m, length (H m) = 32%nat.
+
+  Definition sigdata_of (netcompat : bool) (ptype : N) (m : dmsg) : bytes :=
+    n2b ptype :: (if netcompat then [] else aqua_tag) ++ encode_msg m.
+
+  Lemma msg_type_range m : 134 <= msg_type m <= 137.
+  Proof. destruct m; cbn; lia. Qed.
+
+  (* decodePacket(encodePacket(req)) returns req, the signer that `recover` finds for
+     the signature `sign` made, and the packet hash — for every well-formed request of
+     the four kinds, in aqua mode (type bytes 134..137) and in netcompat mode (134..137
+     or the original 1..4). *)
+  Theorem packet_roundtrip netcompat key ptype m id :
+    wf_msg m ->
+    ptype = msg_type m \/ (netcompat = true /\ ptype + 133 = msg_type m) ->
+    let sigdata := sigdata_of netcompat ptype m in
+    let sig := sign key (H sigdata) in
+    length sig = 65%nat ->
+    recover (H sigdata) sig = Some id ->
+    decode_packet H recover netcompat (encode_packet H sign netcompat key ptype m) =
+      DOk m id (H (sig ++ sigdata)).
+  Proof.
+    intros Hwf Hpt sigdata sig Hsig Hrec.
+    pose proof (msg_type_range m) as Hr.
+    assert (Hp256 : ptype < 256) by (destruct Hpt as [->|[_ E]]; lia).
+    unfold Discover.encode_packet. fold (sigdata_of netcompat ptype m). fold sigdata. fold sig.
+    destruct (datagram_slices (H (sig ++ sigdata)) sig sigdata (H_len _) Hsig) as (E1 & E2 & E3 & E4 & E5).
+    unfold Discover.decode_packet. rewrite E5, E1, E2, E3, E4.
+    assert (Hsd : sigdata = n2b ptype :: (if netcompat then [] else aqua_tag) ++ encode_msg m) by reflexivity.
+    assert (Hl1 : 1 <= lenN sigdata) by (rewrite Hsd, lenN_cons; lia).
+    destruct (N.ltb_spec (97 + lenN sigdata) (head_size + 1)) as [Hc|_]; [unfold head_size in Hc; lia|].
+    destruct (N.eqb_spec (lenN sigdata) 0) as [Hc|_]; [lia|].
+    rewrite bytes_eqb_refl. cbn [negb]. rewrite Hrec. rewrite Hsd.
+    rewrite (b2n_n2b ptype Hp256).
+    assert (Ht : (if netcompat && (ptype <? 133) then (ptype + 133) mod 256 else ptype) = msg_type m).
+    { destruct Hpt as [->|[-> E]].
+      - destruct (N.ltb_spec (msg_type m) 133); [lia|]. now rewrite andb_false_r.
+      - cbn [andb]. destruct (N.ltb_spec ptype 133); [|lia]. rewrite E. apply N.mod_small. lia. }
+    rewrite Ht.
+    destruct (N.leb_spec 134 (msg_type m)); [|lia]. destruct (N.leb_spec (msg_type m) 137); [|lia]. cbn [andb].
+    rewrite <- (app_nil_r (encode_msg m)).
+    destruct netcompat.
+    - cbn [app]. rewrite lenN_cons.
+      destruct (N.ltb_spec (1 + lenN (encode_msg m ++ [])) (1 + 0)); [lia|].
+      change (skipn (N.to_nat (1 + 0)) (n2b ptype :: encode_msg m ++ [])) with (encode_msg m ++ []).
+      now rewrite dec_msg_encode.
+    - unfold aqua_tag. cbn [app]. rewrite !lenN_cons.
+      destruct (N.ltb_spec (1 + (1 + (1 + (1 + (1 + lenN (encode_msg m ++ [])))))) (1 + 4)); [lia|].
+      change (skipn (N.to_nat (1 + 4)) (n2b ptype :: x61 :: x71 :: x75 :: x61 :: encode_msg m ++ [])) with (encode_msg m ++ []).
+      now rewrite dec_msg_encode.
+  Qed.
+End PacketRoundtrip.
